@@ -241,6 +241,12 @@ def run_case(case, acc):
                 ok2, b = _call(acc, case, m, lambda: Metric[m](P, R))
                 if got[m][0] and ok2 and float(got[m][1]) != float(b):
                     acc.violation(f"C06:mask:{m}:symmetry", {**case, "dtypes": [dt]}, f"{m}(X,Y)={got[m][1]} != {m}(Y,X)={b}")
+            if dt in ("bool", "uint8") and len(shape) >= 2:
+                # memory layouts of the two masks (Fortran order, negative strides, strided views; same and mixed)
+                for lp, lr in (("F", "F"), ("F", "C"), ("C", "F"), ("rev", "strided")):
+                    PL, RL = sc.apply_layout(P, lp), sc.apply_layout(R, lr)
+                    gotl = {m: _call(acc, case, m, lambda m=m: Metric[m](RL, PL)) for m in METS}
+                    _judge_counts(acc, {**case, "dtypes": [dt], "layout": [lp, lr]}, f"mask dtype={dt} layouts pred={lp} ref={lr}", nX, nY, nI, gotl, "mask_layout")
             if dt in ("bool", "uint8"):
                 for form, sel_present in (([1], True), ([2], False), ([1, 2], True), (2, False)):
                     got = {m: _call(acc, case, m, lambda m=m: Metric[m](R, P, 1, form)) for m in METS}
